@@ -462,7 +462,15 @@ pub fn c12_damage_leaf(env: &mut Env, leaf: &Leaf) {
     let dir = env.scratch2.path.clone();
     for f in d.frames.iter().filter(|f| d.batch_ops.contains(&f.op)) {
         let batch = &d.op_records[&f.op];
-        for (patch, descr) in frame_faults(&d, f) {
+        let mut faults = frame_faults(&d, f);
+        // header damage too: "every single-frame damage of the written batch"
+        for ty in [0u8, 1, 2, 3, 4, 5, 0xFF] {
+            faults.push((vec![(f.file.clone(), f.offset + 6, vec![ty])], json!({"kind":"frame-type","file":f.file,"frame_offset":f.offset,"new_type":ty,"frame_owner_op":f.op})));
+        }
+        for len in [0usize, (f.len - 7).saturating_sub(1), f.len - 7 + 1, 0xFFFF] {
+            faults.push((vec![(f.file.clone(), f.offset + 4, (len as u16).to_le_bytes().to_vec())], json!({"kind":"frame-len","file":f.file,"frame_offset":f.offset,"new_len":len,"frame_owner_op":f.op})));
+        }
+        for (patch, descr) in faults {
             let Some(img) = apply_patch(&d.image, &patch) else { continue };
             env.stats.evaluations += 1;
             env.stats.transitions += 1;
@@ -498,7 +506,7 @@ pub fn c12_damage_leaf(env: &mut Env, leaf: &Leaf) {
 // ---------------------------------------------------------------------------------------------
 // C10: structural damage and crafted entries
 
-#[derive(Clone, Debug, serde::Serialize)]
+#[derive(Clone, Debug, serde::Serialize, serde::Deserialize)]
 pub enum SOp {
     ZeroBlock(usize, usize),
     SwapBlocks(usize, usize, usize, usize),
@@ -562,7 +570,7 @@ fn sop_menu(image: &Image) -> Vec<SOp> {
     v
 }
 
-fn apply_sop(img: &mut Image, op: &SOp) {
+pub fn apply_sop(img: &mut Image, op: &SOp) {
     let names: Vec<String> = img.keys().filter(|k| wal_number(k).is_some()).cloned().collect();
     let blk = |img: &Image, f: usize, b: usize| -> Option<Vec<u8>> {
         let name = names.get(f)?;
@@ -641,7 +649,7 @@ fn apply_sop(img: &mut Image, op: &SOp) {
     }
 }
 
-fn c10_eval(env: &mut Env, dir: &std::path::Path, img: &Image, case: impl FnOnce() -> serde_json::Value) {
+pub fn c10_eval(env: &mut Env, dir: &std::path::Path, img: &Image, case: impl FnOnce() -> serde_json::Value) {
     env.stats.evaluations += 1;
     env.stats.transitions += 1;
     let total: usize = img.values().map(|b| b.len()).sum();
@@ -758,7 +766,7 @@ pub fn embedded_tail_payload() -> Vec<u8> {
     v
 }
 
-fn crafted_entries() -> Vec<(String, Vec<u8>)> {
+pub fn crafted_entries() -> Vec<(String, Vec<u8>)> {
     let mut v = vec![];
     let positions: [u64; 5] = [0, 1, 5, 1 << 62, u64::MAX];
     for ty in 0u8..=5 {
